@@ -98,6 +98,26 @@ pub fn rd_vec<T: Flat + Sized, L: Flat + vec::Length>(v: &FlatVec<T, L>, f: impl
 // ---------------------------------------------------------------------------------------------
 // generic builder ops on containers
 
+/// Raw tag of an enum value (first `tag_size` bytes, native order) is below `variants`.  The deep
+/// read asks this before it matches on the value: `as_ref()` on an out-of-range tag is undefined
+/// behaviour in the harness process (a broken validator may hand such a value out).
+pub fn enum_tag_ok<M: Flat + ?Sized>(m: &M, tag_size: usize, variants: u64) -> bool {
+    let b = m.as_bytes();
+    if b.len() < tag_size {
+        note_invalid("enum value shorter than its tag");
+        return false;
+    }
+    let mut t = 0u64;
+    for (i, x) in b[..tag_size].iter().enumerate() {
+        t |= (*x as u64) << (8 * if cfg!(target_endian = "big") { tag_size - 1 - i } else { i });
+    }
+    if t >= variants {
+        note_invalid("enum tag out of range");
+        return false;
+    }
+    true
+}
+
 thread_local! {
     static REFUSED: core::cell::Cell<bool> = const { core::cell::Cell::new(false) };
 }
@@ -245,6 +265,9 @@ impl ZooMsg for TestMsg {
         }
     }
     fn read(&self) -> Val {
+        if !enum_tag_ok(self, 1, 3) {
+            return Val::V(0, vec![]);
+        }
         match self.as_ref() {
             TestMsgRef::A => Val::V(0, vec![]),
             TestMsgRef::B(x) => Val::V(1, vec![Val::I(*x as i128)]),
@@ -371,6 +394,9 @@ impl ZooMsg for TagStr {
         }
     }
     fn read(&self) -> Val {
+        if !enum_tag_ok(self, 2, 3) {
+            return Val::V(0, vec![]);
+        }
         match self.as_ref() {
             TagStrRef::N => Val::V(0, vec![]),
             TagStrRef::F(b, x) => Val::V(1, vec![rd_bool(b), Val::I(*x as i128)]),
@@ -691,6 +717,9 @@ impl ZooMsg for PEnum {
         }
     }
     fn read(&self) -> Val {
+        if !enum_tag_ok(self, 1, 3) {
+            return Val::V(0, vec![]);
+        }
         match self.as_ref() {
             PEnumRef::A => Val::V(0, vec![]),
             PEnumRef::B(f, b) => Val::V(1, vec![Val::F(f32::from(*f).to_bits() as u64), rd_bool(b)]),
@@ -794,6 +823,9 @@ impl ZooMsg for FixedE {
         Self::new_in_place(bytes, x)
     }
     fn read(&self) -> Val {
+        if !enum_tag_ok(self, 4, 3) {
+            return Val::V(0, vec![]);
+        }
         match self {
             FixedE::A => Val::V(0, vec![]),
             FixedE::B(x, y) => Val::V(1, vec![Val::I(*x as i128), Val::I(*y as i128)]),
@@ -838,6 +870,9 @@ impl ZooMsg for Nest {
         }
     }
     fn read(&self) -> Val {
+        if !enum_tag_ok(self, 1, 3) {
+            return Val::V(0, vec![]);
+        }
         match self.as_ref() {
             NestRef::E => Val::V(0, vec![]),
             NestRef::P(p) => Val::V(1, vec![p.read()]),
@@ -935,6 +970,9 @@ impl ZooMsg for Pad3 {
         }
     }
     fn read(&self) -> Val {
+        if !enum_tag_ok(self, 1, 4) {
+            return Val::V(0, vec![]);
+        }
         match self.as_ref() {
             Pad3Ref::Z => Val::V(0, vec![]),
             Pad3Ref::S(a, b, c) => Val::V(1, vec![Val::I(*a as i128), Val::I(*b as i128), Val::I(*c as i128)]),
